@@ -199,10 +199,18 @@ class ThreadWorld:
                 "stop_requested_at": stop_requested_at, "roots": roots}
 
     def _roots_final(self) -> bool:
+        """The roots and every invocation they (transitively) submitted are final."""
         with quiet():
             for r in self.roots:
                 if not self.app.orchestrator.get_invocation_status(r.invocation_id).is_final():
                     return False
+            for name, real in list(self.namer.to_real.items()):
+                if name.startswith("i"):
+                    try:
+                        if not self.app.orchestrator.get_invocation_status(real).is_final():
+                            return False
+                    except KeyError:
+                        continue
         return True
 
 
